@@ -61,8 +61,8 @@ GridDef ==
            <<"method", 3, "p6", FALSE>>, <<"func", 4, "p4", FALSE>>, <<"method", 4, "p4", FALSE>>,
            <<"op", 2, "op13", FALSE>>, <<"op", 2, "op6", TRUE>>, <<"op", 3, "op9", FALSE>>, <<"op", 4, "op6", FALSE>> }
     [] Grid = "thorough" ->
-         { <<"func", 2, "full42", FALSE>>, <<"method", 2, "full42", FALSE>>, <<"func", 3, "p12", FALSE>>,
-           <<"method", 3, "p12", FALSE>>, <<"func", 4, "p6", FALSE>>, <<"method", 4, "p6", FALSE>>,
+         { <<"func", 2, "full42", FALSE>>, <<"method", 2, "full42", FALSE>>, <<"func", 3, "p8", FALSE>>,
+           <<"method", 3, "p8", FALSE>>, <<"func", 4, "p5", FALSE>>, <<"method", 4, "p5", FALSE>>,
            <<"op", 2, "op13", FALSE>>, <<"op", 2, "op6", TRUE>>, <<"op", 3, "op13", FALSE>>, <<"op", 4, "op9", FALSE>> }
     [] Grid = "live" ->
          { <<"func", 2, "p5", FALSE>>, <<"method", 2, "p5", FALSE>>, <<"func", 3, "p5", FALSE>>,
